@@ -980,3 +980,17 @@ package ion
 //@ modifies *
 //@ ensures[C12] old(w.err) != nil ==> err == old(w.err) && w.err == old(w.err)
 //@ ensures[C12] err != nil ==> w.err != nil
+
+// Text formatting helpers: for the writers' callers only the absence of side effects matters
+// (what they print is the subject of C01/C14/C15, not yet under contract).
+//@ func formatFloat
+//@ trusted assumed pure (strconv-based formatting is outside the engine's subset)
+//@ modifies nothing
+
+//@ func (*Decimal).String
+//@ trusted assumed pure (big.Int string surgery is outside the engine's subset)
+//@ modifies nothing
+
+//@ func (Timestamp).String
+//@ trusted assumed pure (time.Format-based formatting is outside the engine's subset)
+//@ modifies nothing
